@@ -17,20 +17,44 @@ class StoreModel:
         self.insert_fns = {f.name for f, _, _ in self.ops.get("insert", [])}
         self.remove_fns = {f.name for f, _, _ in self.ops.get("remove", [])}
         self.lookup_sites = [x for m in ("get", "get_mut", "contains_key") for x in self.ops.get(m, [])]
-        # presence predicates: return bool, one lookup keyed by a parameter, result = "entry exists" (no liveness)
+        # presence predicates: bool functions with one store lookup keyed by a parameter, judged on path-sensitive paths
+        # (combinators, `matches!` with a guard, explicit branches alike):
+        #   physical  : the answer is exactly "the lookup found an entry"
+        #   filtered  : the answer implies an entry was found, but some found entries are answered false (liveness ..)
+        from sym import ipaths, bool_outcomes
         self.presence_fns = {}
         self.filtered_presence_fns = {}
         for f, bb, t in self.lookup_sites:
-            if f.rec.get("ret") != "bool":
+            if f.rec.get("ret") != "bool" or f.kind == "Closure":
                 continue
             k = f.op_origin(t["args"][1])
-            r = f.origin_local(0)
-            lookup = f.origin_call(bb, t)
-            unfiltered = strip_site(r) == strip_site(lookup) or (r[0] == "call" and r[1].endswith("Option::<T>::is_some") and strip_site(r[2][0]) == strip_site(lookup))
-            if k[0] == "param" and unfiltered:
+            if k[0] != "param":
+                continue
+            meth = dashmap_call(t)[0]
+            rows = set()
+            okp = True
+            for p in ipaths(F, f, stop=lambda n: False, depth=2):
+                L = [e for e in p.events if e.fn is f and e.bb == bb]
+                if not L:
+                    okp = False
+                    continue
+                for atoms, result in bool_outcomes(p):
+                    if meth == "contains_key":
+                        fa = [a for a in atoms if a[0] == "bool" and strip_site(a[1]) == strip_site(L[0].res)]
+                        found = fa[0][2] if fa else None
+                    else:
+                        q = type(p)(p.fn, p.blocks, atoms, p.events, p.stores, p.ret, p.trace)
+                        v = q.variant_of(L[0].res)
+                        found = True if v == ("Some",) else (False if v == ("None",) else None)
+                    rows.add((found, result))
+            if not okp or not rows or any(fd is None for fd, r_ in rows):
+                continue
+            if any(r_ and not fd for fd, r_ in rows):
+                continue            # answers true without an entry: not a presence predicate
+            if (True, False) in rows:
+                self.filtered_presence_fns[f.name] = k[1]
+            elif (True, True) in rows:
                 self.presence_fns[f.name] = k[1]
-            elif k[0] == "param" and mentions(r, lambda s: strip_site(s) == strip_site(lookup)):
-                self.filtered_presence_fns[f.name] = k[1]      # some filter sits between the lookup and the answer
 
         # readable predicates: bool functions that are `is_some()` of a liveness-filtered lookup function of the store
         self.readable_fns = {}
